@@ -21,7 +21,7 @@ EXPLANATION += (  # round-3 supplement
     ' I7 declare_type looks earlier registrations up by TypeId alone, a hit is an error, the entry is added afterwards. I8 rust_type_to_roto_type maps each constructor to the Roto constructor of the same name with its components in order.'
 )
 EXPLANATION += (
-    ' I9 sibling agreement of the recursive registration passes: each descends into a module (or impl) with the scope looked up for it, never with the scope it was called with. I10 an import is registered only after the imported name was found (some function between Rt::declare_import and the insertion gates the onward call on a lookup of the same name). I11 a context type is stored only after every field type was found among the types of this runtime (discharges the unwrap in TypeChecker::declare_context).'
+    ' I9 sibling agreement of the recursive registration passes: each descends into a module (or impl) with the scope looked up for it, never with the scope it was called with. I10 an import is registered only after the imported name was found (some function between Rt::declare_import and the insertion gates the onward call on a lookup of the same name). I11 a context type is stored only after every field type was found among the types of this runtime (discharges the unwrap in TypeChecker::declare_context). I12 name validation: the Ok exit of check_name_internal is decided by a comparison of the lexed token\'s span with the extent of the whole name.'
 )
 ASSUMPTIONS = [
     "crate-internal generic signatures (Function::new_generic, pub(crate) unsafe) are well-formed: parse_sig/evaluate_type_expr unwraps are reachable only from there",
@@ -558,6 +558,59 @@ def rule_i11(F):
     return r
 
 
+def rule_i12(F):
+    """Names of registered items are validated by lexing them - and the lexer skips whitespace and comments.  A name is an identifier
+    only if the one token that was lexed IS the name: the Ok exit of the validation is decided by a comparison of the token's span
+    with the extent of the whole name."""
+    r = RuleResult("C18.I12", "name validation: the identifier token must span the whole name (no surrounding whitespace or comments)", floor=1)
+    ps = [p for p in F.paths() if p.endswith("::check_name_internal")]
+    if not ps:
+        r.missing("Rt::check_name_internal")
+        return r
+    b = F.body(ps[0])
+    defs = mir.Defs(b)
+    dom = mir.dominators(b)
+    nexts = [bi for bi, t in mir.calls(b) if hir.last(mir.callee_def(t) or "") == "next"]
+    oks = [bi for bi, blk in enumerate(b.blocks) for st in blk["stmts"] if st["k"] == "assign" and st["p"] == [0] and st["rv"]["k"] == "agg" and st["rv"].get("variant") == "Ok"]
+    if not nexts or not oks:
+        r.missing("the lexer call / the Ok exit of check_name_internal")
+        return r
+    first = min(nexts)
+    # comparisons that look at the span (second component of what the lexer returned) 
+    cmps = []
+    for bi, t in mir.calls(b):
+        if hir.last(mir.callee_def(t) or "") in ("ne", "eq") and t["args"]:
+            keys = [mir.origin_key(b, defs, a[1]) for a in t["args"] if mir.is_place_op(a)]
+            if any("next" in k and ".1" in k.split("next", 1)[1] for k in keys):
+                cmps.append(bi)
+    for bi, blk in enumerate(b.blocks):
+        for st in blk["stmts"]:
+            if st["k"] == "assign" and st["rv"]["k"] == "bin" and st["rv"].get("op") in ("Eq", "Ne", "Lt", "Le", "Gt", "Ge"):
+                keys = [mir.origin_key(b, defs, o[1]) for o in (st["rv"]["a"], st["rv"]["b"]) if mir.is_place_op(o)]
+                if any("next" in k and ".1" in k.split("next", 1)[1] for k in keys):
+                    cmps.append(bi)
+    decided = False
+    for c in cmps:
+        for ok in oks:
+            # a branch after the comparison, fed by it, with a side that cannot reach the Ok exit
+            for si, sblk in enumerate(b.blocks):
+                tt = sblk["term"]
+                if tt["k"] != "switch" or c not in dom[si] or si not in dom[ok]:
+                    continue
+                l = mir.op_local(tt["o"])
+                if l is None:
+                    continue
+                src_blocks = mir.back_calls(b, defs, l) | {d[0] for d in defs.whole_defs(l)}
+                if c in src_blocks and any(s_ != ok and ok not in mir.reachable_from(b, s_) for s_ in mir.succs(sblk)):
+                    decided = True
+    r.inst("check_name_internal", {"span_comparisons": len(cmps), "ok_exit_decided_by_span": decided})
+    if not decided:
+        r.bad(b.path, "token span not compared with the whole name", relfile(b.file), b.line,
+              "a name is accepted when the lexer finds exactly one identifier token in it, but the lexer skips whitespace and comments: \" foo\", \"foo \" and \"foo // x\" are registered as "
+              "names that no script can spell")
+    return r
+
+
 def rules(ctx):
     F = ctx["F"]
-    return [rule_i1(F), rule_i2(F), rule_i3(F), rule_i4(F), rule_i5(F), rule_i6(F), rule_i7(F), rule_i8(F), rule_i9(F), rule_i10(F), rule_i11(F)]
+    return [rule_i1(F), rule_i2(F), rule_i3(F), rule_i4(F), rule_i5(F), rule_i6(F), rule_i7(F), rule_i8(F), rule_i9(F), rule_i10(F), rule_i11(F), rule_i12(F)]
